@@ -109,6 +109,7 @@ func (w *World) walkSeg(ts time.Time, segID uint16, ases []*AS, in, eg []uint16,
 			peers = a.peerIfIDs()
 		}
 		ext := a.Extender(a.MaxExp, ts.Add(1000*time.Hour))
+		ext.EPIC = w.EPIC
 		// the accumulator value at this moment, derived by the simulator from the beacon as it is
 		// (documented chaining rule: initial value, then XOR of the first two MAC bytes per entry)
 		beta := ps.Info.SegmentID
